@@ -42,6 +42,9 @@ def scenario(args):
             lp.load_ack(bytes([0xAC, k, seed & 0xFF]))
         if c["api"] == "txread":
             ev.append(lp.txread())
+        elif c["api"] == "ctx":
+            if not tx_lite:
+                ev.append(lp.ctx())
         elif c["api"] == "queue":
             ev.append(lp.queue_only(c["n"]))
         elif c["api"] == "rxturn":
@@ -135,6 +138,12 @@ def build_jobs(chk, tx_lite=False, rx_lite=False):
         for nxt in so_alpha:
             add(dict(arc=1, ard=250, ackpl=True),
                 [dict(api="send", fr=0, send_only=True, fates=["D"]), fail, dict(api="txread"), nxt])
+    # the `with` block left and entered again between two calls (after a failed one, after a successful one)
+    for first in (dict(api="send", fr=0, fates=list("PP")), dict(api="send", fr=1, fates=list("PPPP")), dict(api="send", fr=0, fates=["D"]),
+                  dict(api="send", fr=0, fates=list("AA"))):
+        for nxt in (dict(api="send", fr=0, fates=["D"]), dict(api="send", fr=0, fates=list("PP")), dict(api="resend", fates=["D"]),
+                    dict(api="sendlist", n=2, fates=list("DD"))):
+            add(dict(arc=1, ard=250), [first, dict(api="ctx"), nxt, dict(api="send", fr=0, fates=["D"])])
     # a TX FIFO left full by write(write_only=True) calls (CE low, nothing sent): the next send() still terminates and reports
     # its own payload's fate
     if True:
